@@ -44,6 +44,10 @@ func VerifSetChunkTimers(c *Chunk, gcTick uint64, timeout uint64) {
 	c.timeout = timeout
 }
 
+// VerifSetChunkValidate switches the receiver's use of the snapshot validator
+// (needed for streams written with a block size other than the format's).
+func VerifSetChunkValidate(c *Chunk, v bool) { c.validate = v }
+
 // VerifChunkTimers returns the gc interval and the stream timeout in use.
 func VerifChunkTimers(c *Chunk) (uint64, uint64) { return c.gcTick, c.timeout }
 
